@@ -1190,7 +1190,51 @@ func s5FanOut(p *Prog, o *obls, registry string) {
 		}
 		isCall := func(in ssa.Instruction) bool {
 			c, ok := in.(*ssa.Call)
-			return ok && elem != nil && c.Call.IsInvoke() && p.origin(c.Call.Value) == elem
+			if !ok || elem == nil {
+				return false
+			}
+			if c.Call.IsInvoke() && p.origin(c.Call.Value) == elem {
+				return true
+			}
+			// a visitor helper: the loop calls a function parameter with the element, and every caller passes a
+			// literal that hands the batch to its argument on every path
+			if par, ok := p.origin(c.Call.Value).(*ssa.Parameter); ok && !c.Call.IsInvoke() {
+				k := -1
+				for i, a := range c.Call.Args {
+					if p.origin(a) == elem {
+						k = i
+					}
+				}
+				if k < 0 {
+					return false
+				}
+				args, _, closed := p.argsForParam(par)
+				if !closed || len(args) == 0 {
+					return false
+				}
+				for _, a := range args {
+					mc, ok := p.origin(a).(*ssa.MakeClosure)
+					if !ok {
+						return false
+					}
+					lit := mc.Fn.(*ssa.Function)
+					if k >= len(lit.Params) {
+						return false
+					}
+					lp := lit.Params[k]
+					before, _ := pathCounts(lit, func(in2 ssa.Instruction) bool {
+						c2, ok := in2.(*ssa.Call)
+						return ok && c2.Call.IsInvoke() && p.origin(c2.Call.Value) == ssa.Value(lp)
+					})
+					for _, b := range lit.Blocks {
+						if ret, ok := b.Instrs[len(b.Instrs)-1].(*ssa.Return); ok && before[ret]&1 != 0 {
+							return false
+						}
+					}
+				}
+				return true
+			}
+			return false
 		}
 		for _, s := range hdr.Succs {
 			if !body[s] {
